@@ -374,8 +374,10 @@ impl Run {
 
     /// quick / thorough amount of work
     pub fn scale(&self, quick: usize, thorough: usize) -> usize {
+        // The quick counts in the check sources were sized on a heavily loaded machine;
+        // on 16 free cores three times as much still finishes in 10-45 s per property.
         let base = match self.tier {
-            Tier::Quick => quick,
+            Tier::Quick => quick.saturating_mul(3).min(thorough.max(quick)),
             Tier::Thorough => thorough,
         };
         // VERIF_SCALE lets long background campaigns multiply the work
@@ -688,6 +690,7 @@ impl Run {
         let t = Instant::now();
         let known_keys: HashSet<String> =
             self.known.iter().filter(|k| k.status == "known").map(|k| k.key.clone()).collect();
+        let inflight = self.inflight;
         let chunks = (self.shards * 8).min(n.max(1));
         let per = (n + chunks - 1) / chunks.max(1);
         let results: Vec<(Rec, BTreeMap<String, (usize, C, Failure)>)> = (0..chunks)
@@ -703,7 +706,7 @@ impl Run {
                     if rec.samples.is_empty() && (i == 0 || i == n / 2 || i + 1 == n) {
                         rec.samples.push(truncate_value(serde_json::to_value(&case).unwrap_or(Value::Null)));
                     }
-                    match run_guarded(name, &case, &oracle, &mut rec, false) {
+                    match run_guarded(name, &case, &oracle, &mut rec, inflight) {
                         Ok(()) => {}
                         Err(f) => {
                             if known_keys.iter().any(|k| key_matches(k, &f.key)) {
